@@ -13,7 +13,8 @@ EXPLANATION = (
     "(R03c) per-structure brackets reach commit on every success path.")
 DECIDED = ["R03a the database transaction is one storage transaction (PAIR + order)",
            "R03b closed classification of public mutating entry points (call graph)",
-           "R03c success pairing of all per-structure storage brackets"]
+           "R03c success pairing of all per-structure storage brackets",
+           "R05e (shared) a renamed database keeps a working write-ahead log"]
 UNDECIDED = ["equality of the reopened state with the before/after model state (needs execution)"]
 
 SD_WRITE = ("agdb::storage::StorageData::write", "agdb::storage::StorageData::resize")
